@@ -935,6 +935,7 @@ func runC04(r *core.Run) {
 
 	// pinned witnesses of repaired / recorded findings
 	c04Sentinels(r)
+	c04KnownFindings(r)
 }
 
 func c04Sentinels(r *core.Run) {
@@ -959,6 +960,20 @@ func c04Sentinels(r *core.Run) {
 		r.Eval(1)
 		if o.Failed() || len(o.Rets) != 1 || o.Rets[0] != s.want || o.Types[0] != s.wantType {
 			r.Violate(core.Violation{Check: "c04-sentinel", What: "pinned witness of repaired finding " + s.id + " fails again", Case: s.src, Expected: s.want + " (" + s.wantType + ")", Observed: o})
+		}
+	}
+}
+
+// c04KnownFindings: pinned witnesses of recorded (open) findings.
+func c04KnownFindings(r *core.Run) {
+	m := core.NewMachine(core.VMOpts{Optimize: true})
+	o := m.Eval(nil, "c := 31; x := 1 << c >> 2; x")
+	r.Eval(1)
+	if !(len(o.Rets) == 1 && o.Rets[0] == "-536870912") {
+		if r.Findings().Open("K04") {
+			r.KnownFinding("K04")
+		} else {
+			r.Violate(core.Violation{Check: "c04-sentinel", What: "a run-time shift of an untyped constant is not computed in the type Go gives it", Case: "c := 31; x := 1 << c >> 2; x", Expected: "-536870912 (int32)", Observed: o})
 		}
 	}
 }
